@@ -239,4 +239,100 @@ theorem dryRunCreate_abs (accept : Crd → Bool) (crds : List (String × Crd)) (
     | true => simpa [dryRun, ha] using ih (fun p hp => hnew p (List.mem_cons_of_mem _ hp))
     | false => simp [dryRun, ha, runOk, rewriteError, Verdict.abs]
 
+/-! ### what the webhook submits: a property of EVERY request on EVERY path of the program tree -/
+
+/-- every request the program can ever issue (whatever the replies) satisfies `P` -/
+def ProgAll {Rq Rs α : Type} (P : Rq → Prop) : Prog Rq Rs α → Prop
+  | .ret _ => True
+  | .call r k => P r ∧ ∀ x, ProgAll P (k x)
+
+theorem progAll_mono {Rq Rs α : Type} {P Q : Rq → Prop} (h : ∀ r, P r → Q r) (p : Prog Rq Rs α) (hp : ProgAll P p) :
+    ProgAll Q p := by
+  induction p with
+  | ret a => trivial
+  | call r k ih => exact ⟨h r hp.1, fun x => ih x (hp.2 x)⟩
+
+theorem progAll_bind {Rq Rs α β : Type} {P : Rq → Prop} (p : Prog Rq Rs α) (f : α → Prog Rq Rs β)
+    (hp : ProgAll P p) (hf : ∀ a, ProgAll P (f a)) : ProgAll P (Prog.bind p f) := by
+  induction p with
+  | ret a => exact hf a
+  | call r k ih => exact ⟨hp.1, fun x => ih x (hp.2 x)⟩
+
+/-- ... hence every request the run actually issues, under any environment and fault plan -/
+theorem ownE_all {S Rq Rs α : Type} (sem : Sem S Rq Rs) (env : Env S) (plan : Plan) {P : Rq → Prop}
+    (p : Prog Rq Rs α) (h : ProgAll P p) (k : Nat) (s : S) : ∀ x ∈ ownE sem env plan k p s, P x.2 := by
+  induction p generalizing k s with
+  | ret a => intro x hx; simp [ownE] at hx
+  | call r c ih =>
+    intro x hx
+    unfold ownE at hx
+    split at hx
+    · rcases List.mem_cons.mp hx with e | e
+      · subst e; exact h.1
+      · exact ih _ (h.2 _) _ _ x e
+    · exact ih _ (h.2 _) _ _ x hx
+    · exact ih _ (h.2 _) _ _ x hx
+    · simp at hx
+    · simp at hx; subst hx; exact h.1
+
+/-- the request is about the derived CRD `c`: a read of its name, or a DRY-RUN write carrying exactly `c` -/
+def Req.about (c : Crd) : Req → Prop
+  | .get n => n = c.name
+  | .update dry _ c' => dry = true ∧ c' = c
+  | .create dry c' => dry = true ∧ c' = c
+
+theorem all_attempt (c : Crd) : ProgAll (Req.about c) (attempt c) := by
+  refine ⟨rfl, fun x => ?_⟩
+  cases x with
+  | found rv => exact ⟨⟨rfl, rfl⟩, fun _ => trivial⟩
+  | ok => trivial
+  | err e => cases e <;> first | exact ⟨⟨rfl, rfl⟩, fun _ => trivial⟩ | trivial
+
+theorem all_retry (c : Crd) : ∀ n, ProgAll (Req.about c) (retryOnConflict n c)
+  | 0 => trivial
+  | n+1 => by
+    unfold retryOnConflict
+    refine progAll_bind _ _ (all_attempt c) (fun r => ?_)
+    split
+    · split
+      · trivial
+      · exact all_retry c n
+    · trivial
+
+theorem all_dryRunAllUpdate (steps : Nat) (all : List (String × Crd)) :
+    ∀ crds, (∀ p ∈ crds, p ∈ all) → ProgAll (fun r => ∃ p ∈ all, Req.about p.2 r) (dryRunAllUpdate steps crds)
+  | [], _ => trivial
+  | (w, c) :: rest, hsub => by
+    unfold dryRunAllUpdate
+    refine progAll_bind _ _ (progAll_mono (fun r hr => ⟨(w, c), hsub _ (List.mem_cons_self ..), hr⟩) _ (all_retry c steps)) (fun r => ?_)
+    cases r with
+    | ok => exact all_dryRunAllUpdate steps all rest (fun p hp => hsub p (List.mem_cons_of_mem _ hp))
+    | err e => trivial
+    | found rv => trivial
+
+theorem all_dryRunAllCreate (all : List (String × Crd)) :
+    ∀ crds, (∀ p ∈ crds, p ∈ all) → ProgAll (fun r => ∃ p ∈ all, Req.about p.2 r) (dryRunAllCreate crds)
+  | [], _ => trivial
+  | (w, c) :: rest, hsub => by
+    unfold dryRunAllCreate
+    refine ⟨⟨(w, c), hsub _ (List.mem_cons_self ..), rfl, rfl⟩, fun r => ?_⟩
+    cases r with
+    | ok => exact all_dryRunAllCreate all rest (fun p hp => hsub p (List.mem_cons_of_mem _ hp))
+    | err e => trivial
+    | found rv => trivial
+
+/-- what a request of the webhook is: about one of the CRDs derived from `xrd` -/
+def AboutDerived (xrd : Xrd) (r : Req) : Prop :=
+  ∃ crds, allCrds xrd = .ok crds ∧ ∃ p ∈ crds, Req.about p.2 r
+
+theorem all_hook (errs : List String) (xrd : Xrd) (loop : List (String × Crd) → Prog Req Resp Verdict)
+    (hloop : ∀ crds, ProgAll (fun r => ∃ p ∈ crds, Req.about p.2 r) (loop crds)) :
+    ProgAll (AboutDerived xrd) (hook errs xrd loop) := by
+  unfold hook
+  split
+  · trivial
+  · cases hc : allCrds xrd with
+    | error e => obtain ⟨a, b⟩ := e; trivial
+    | ok crds => exact progAll_mono (fun r ⟨p, hp, hr⟩ => ⟨crds, hc, p, hp, hr⟩) _ (hloop crds)
+
 end Xp.C11
